@@ -414,3 +414,32 @@ def _renorm(e, memo):
         return e.decl()(*ch)
     except z3.Z3Exception:
         return z3.substitute(e, *[(a, b) for a, b in zip(e.children(), ch) if not a.eq(b)])
+
+
+def _sel(cond_lt, a, b):
+    """a if a<b else b, as a term (no path fork)"""
+    return SymReal(z3.If(cond_lt, R(a), R(b)))
+
+
+def minimum(a, b):
+    def one(u, v):
+        if isinstance(u, SymReal) or isinstance(v, SymReal):
+            return _sel(R(u) <= R(v), u, v)
+        return min(u, v)
+    if isinstance(a, np.ndarray) or isinstance(b, np.ndarray):
+        if (isinstance(a, np.ndarray) and a.dtype == object) or (isinstance(b, np.ndarray) and b.dtype == object):
+            return np.frompyfunc(one, 2, 1)(a, b)
+        return np.minimum(a, b)
+    return one(a, b)
+
+
+def maximum(a, b):
+    def one(u, v):
+        if isinstance(u, SymReal) or isinstance(v, SymReal):
+            return _sel(R(u) >= R(v), u, v)
+        return max(u, v)
+    if isinstance(a, np.ndarray) or isinstance(b, np.ndarray):
+        if (isinstance(a, np.ndarray) and a.dtype == object) or (isinstance(b, np.ndarray) and b.dtype == object):
+            return np.frompyfunc(one, 2, 1)(a, b)
+        return np.maximum(a, b)
+    return one(a, b)
